@@ -97,6 +97,9 @@ def main():
     sys.path.insert(0, common.REPO)
     if a.replay:
         sys.exit(replay(a.pid, a.replay))
+    if a.pid == "selftest":
+        import corrupt
+        sys.exit(corrupt.selftest())
     try:
         rep, (level, cov, assumptions) = None, (None, None, None)
         out = dispatch(a.pid, a.tier, a.replay)
